@@ -30,6 +30,23 @@ type hdrObj struct {
 	// it created): Inner is the object inside the factory, Root the call's
 	// result; fields the caller does not set keep the factory's definitions
 	Inner *hdrObj
+	pctx  *provCtx
+}
+
+// provOf: the provenance of what a definition stores; for a definition inside
+// the factory, in the context of the call that created this header (the
+// factory's parameters stand for this call's arguments, not for the union over
+// all callers).
+func (h *hdrObj) provOf(pa *provAnalysis, st *ssa.Store) provSet {
+	if h.Inner != nil && st.Parent() == h.Inner.Fn {
+		if call, ok := h.Create.(*ssa.Call); ok {
+			if h.pctx == nil {
+				h.pctx = &provCtx{call: call.Common(), fn: h.Inner.Fn, depth: 1}
+			}
+			return pa.of(st.Val, h.pctx)
+		}
+	}
+	return pa.Of(h.valueOf(st))
 }
 
 // factoryCalls: call instructions recognised as header creations through a
@@ -88,6 +105,13 @@ func headerObjects(c *Ctx, fns []*ssa.Function) []*hdrObj {
 	var outer []*hdrObj
 	sites := map[*hdrObj]int{}
 	storing := map[*hdrObj]int{}
+	type plainSite struct {
+		fn    *ssa.Function
+		call  *ssa.Call
+		root  ssa.Value
+		inner *hdrObj
+	}
+	var plain []plainSite
 	for _, fn := range fns {
 		forEachInstr(fn, func(in ssa.Instruction) {
 			call, ok := in.(*ssa.Call)
@@ -123,6 +147,7 @@ func headerObjects(c *Ctx, fns []*ssa.Function) []*hdrObj {
 				}
 			}
 			if !stores {
+				plain = append(plain, plainSite{fn, call, root, inner})
 				return
 			}
 			storing[inner]++
@@ -131,6 +156,19 @@ func headerObjects(c *Ctx, fns []*ssa.Function) []*hdrObj {
 			h.findUses(c)
 			outer = append(outer, h)
 		})
+	}
+	// a base constructor some callers complete and others hand on as it is:
+	// every call site is a header of its own (the inner object alone has no
+	// kind - it is a file at one site, a directory at another)
+	for _, ps := range plain {
+		if storing[ps.inner] == 0 {
+			continue
+		}
+		storing[ps.inner]++
+		factoryCalls[ps.call] = true
+		h := &hdrObj{Fn: ps.fn, Root: ps.root, Kind: ps.inner.Kind, FromFileInfo: ps.inner.FromFileInfo, Create: ps.call, Inner: ps.inner}
+		h.findUses(c)
+		outer = append(outer, h)
 	}
 	var out []*hdrObj
 	for _, h := range direct {
